@@ -115,3 +115,60 @@ Theorem C08_finished_never_restarts :
     jstatus (jobs s' j) = Finished /\ count_exec j (log s') = count_exec j (log s).
 Proof. exact finished_never_restarts. Qed.
 Print Assumptions C08_finished_never_restarts.
+(* ---- the tie to the source by translation (job classes): coq/gen/GenJobs.v is regenerated from src/eascheduler/jobs/*.py
+   on every run (tools/gen_jobs.py) and these theorems are re-checked against it (coq/theories/GenJobsEq.v).
+   JobBase.execute() with the class dispatch (OneTimeJob: job_finish; CountdownJob: set_next_run(None); DateTimeJob: the
+   trigger, the past test, set_next_run) is the model's exec_job, and the generated scheduler closed with the GENERATED
+   execute ([knot2]) computes the model's core from every state the invariant lemmas speak about. *)
+From EAS Require GenRt GenRtJobs GenSchedEq GenJobsEq.
+Theorem C08_generated_jobs_recognised : EASGen.GenJobs.gen_jobs_status_v = EASGen.GenJobs.GenJobsOk.
+Proof. exact GenJobsEq.gen_jobs_recognised. Qed.
+Print Assumptions C08_generated_jobs_recognised.
+Theorem C08_generated_execute_is_exec_open : forall E R j t s,
+  jnext (jobs s j) = Some t -> jlinked (jobs s j) = true -> jstatus (jobs s j) <> Finished ->
+  GenRtJobs.to_M (EASGen.GenJobs.g_execute E R j s) = GenRt.exec_open E (GenRtJobs.jr_remove_job R) j s.
+Proof. exact GenJobsEq.gen_execute_is_exec_open. Qed.
+Print Assumptions C08_generated_execute_is_exec_open.
+Theorem C08_generated_execute_is_exec_job : forall E f X j t s s',
+  WFq (j :: X) s -> ~ In j (queue s) -> jstatus (jobs s j) = Running -> enabled s = true -> Tl s ->
+  jnext (jobs s j) = Some t -> exec_job E (S f) j t s = Some s' ->
+  GenRtJobs.to_M (EASGen.GenJobs.g_execute E (GenJobsEq.jrec_of (GenJobsEq.knot2 E f)) j s) = Some (s', GenRt.Ret) \/
+  exists s'', GenRtJobs.to_M (EASGen.GenJobs.g_execute E (GenJobsEq.jrec_of (GenJobsEq.knot2 E f)) j s)
+                = Some (s'', GenRt.Exc GenRt.XUser) /\ s' = add_ev (EHandler (HJob j)) s''.
+Proof. exact GenJobsEq.gen_execute_is_exec_job. Qed.
+Print Assumptions C08_generated_execute_is_exec_job.
+Theorem C08_generated_closed_system_is_model : forall E f, GenJobsEq.agrees2 E f.
+Proof. exact GenJobsEq.gen_agrees2. Qed.
+Print Assumptions C08_generated_closed_system_is_model.
+Theorem C08_generated_wake_is_model : forall E fuel hs s s' w,
+  Inv s -> timer s = Some w -> w <= now s -> step_op E fuel hs s OWake = (s', Done) ->
+  GenJobsEq.gen2_run_jobs E fuel s = Some (s', GenRt.Ret).
+Proof. exact GenJobsEq.gen2_wake_is_model. Qed.
+Print Assumptions C08_generated_wake_is_model.
+Theorem C08_generated_early_wake_is_model : forall E fuel hs s s' w,
+  Inv s -> timer s = Some w -> step_op E fuel hs s OEarlyWake = (s', Done) ->
+  GenJobsEq.gen2_run_jobs E fuel s = Some (s', GenRt.Ret).
+Proof. exact GenJobsEq.gen2_early_wake_is_model. Qed.
+Print Assumptions C08_generated_early_wake_is_model.
+Theorem C08_generated_enable_is_model : forall E fuel hs s b s',
+  Inv s -> step_op E fuel hs s (OEnable b) = (s', Done) -> GenJobsEq.gen2_set_enabled E fuel b s = Some (s', GenRt.Ret).
+Proof. exact GenJobsEq.gen2_enable_is_model. Qed.
+Print Assumptions C08_generated_enable_is_model.
+(* CountdownJob.reset / set_countdown on every reachable state.  The file re-tests the new run time against the clock;
+   the model does not, because a countdown is positive (SecsPos, exact_step_op): hence the hypothesis on jsecs. *)
+Theorem C08_generated_reset_is_model : forall E fuel hs s j s' r,
+  Inv s -> jkind (jobs s j) = KCountdown -> 0 <= jsecs (jobs s j) ->
+  step_op E fuel hs s (OReset j) = (s', r) -> r <> NoFuel ->
+  GenJobsEq.gen_reset E fuel j s = GenJobsEq.ret_of r s'.
+Proof. exact GenJobsEq.gen_reset_is_model. Qed.
+Print Assumptions C08_generated_reset_is_model.
+Theorem C08_generated_set_countdown_is_model : forall E fuel hs s j secs s' r,
+  jkind (jobs s j) = KCountdown ->
+  step_op E fuel hs s (OSetCountdown j secs) = (s', r) ->
+  GenJobsEq.gen_set_countdown E fuel j secs s = GenJobsEq.ret_of r s'.
+Proof. exact GenJobsEq.gen_set_countdown_is_model. Qed.
+Print Assumptions C08_generated_set_countdown_is_model.
+(* JobBase.__lt__ is the comparison the model's bisect.insort uses *)
+Theorem C08_generated_lt_is_job_lt : forall s a b, EASGen.GenJobs.g_JobBase_lt a b s = job_lt s a b.
+Proof. exact GenJobsEq.gen_lt_is_job_lt. Qed.
+Print Assumptions C08_generated_lt_is_job_lt.
